@@ -23,3 +23,9 @@
 (declare-fun validVec ((Array Int Fp) Int Int) Bool)
 (assert (forall ((P (Array Int Fp)) (o Int)) (! (=> (and (validP (select P (+ o 0)) (select P (+ o 1)) (select P (+ o 2))) (validP (select P (+ o 3)) (select P (+ o 4)) (select P (+ o 5))) (validP (select P (+ o 6)) (select P (+ o 7)) (select P (+ o 8)))) (validVec P o 3)) :pattern ((validVec P o 3)))))
 (assert (forall ((P (Array Int Fp)) (o Int) (n Int)) (! (=> (forall ((k Int)) (=> (and (<= 0 k) (< k n)) (validP (select P (+ o (* 3 k) 0)) (select P (+ o (* 3 k) 1)) (select P (+ o (* 3 k) 2))))) (validVec P o n)) :pattern ((validVec P o n)))))
+; the neutral element: valid points with x = 0 are the neutral class (the Banderwagon quotient identifies (0,1) and (0,-1));
+; (0:1:1) is a valid representative; every multiple of the neutral element is the neutral element (A3)
+(assert (forall ((X Fp) (Y Fp) (Z Fp)) (! (=> (and (validP X Y Z) (= X fp_zero)) (= (gelP X Y Z) g_zero)) :pattern ((gelP X Y Z)))))
+(assert (and (validP fp_zero fp_one fp_one) (= (gelP fp_zero fp_one fp_one) g_zero)))
+(assert (forall ((k Int)) (! (= (g_smul k g_zero) g_zero) :pattern ((g_smul k g_zero)))))
+(assert (forall ((X Fp) (Y Fp) (Z Fp)) (! (=> (validP X Y Z) (not (and (= X fp_zero) (= Y fp_zero)))) :pattern ((validP X Y Z)))))
